@@ -162,6 +162,10 @@ def behaviour(doc, spec, path, ops, rep, record):
             break
 
 
+_LOADS = [0]
+_LOADER = [None]
+
+
 def run_case(case, rep, record=True):
     import nasim
     failed = set()
@@ -199,7 +203,17 @@ def run_case(case, rep, record=True):
             try:
                 # (now and then under the name of a shipped benchmark: a name is only a name)
                 nm = [None, None, "tiny", "medium", "small-linear"][(len(doc["subnets"]) + len(doc["exploits"]) + case.get("rotate", 0)) % 5]
-                scn = nasim.load_scenario(path, name=nm) if nm else nasim.load_scenario(path)
+                _LOADS[0] += 1
+                if _LOADS[0] % 3 == 0:
+                    # the documented class API: one long-lived ScenarioLoader object loading file after file
+                    from nasim.scenarios.loader import ScenarioLoader
+                    if _LOADER[0] is None:
+                        _LOADER[0] = ScenarioLoader()
+                    scn = _LOADER[0].load(path, name=nm) if nm else _LOADER[0].load(path)
+                    if record:
+                        rep.count("loaded-by-a-reused-ScenarioLoader")
+                else:
+                    scn = nasim.load_scenario(path, name=nm) if nm else nasim.load_scenario(path)
             except Exception as e:
                 raise Failure("C17:rejected", f"valid document rejected: {type(e).__name__}: {str(e)[:300]}",
                               bucket=f"C17:rejected:{type(e).__name__}:{_norm_msg(str(e))}")
